@@ -46,7 +46,11 @@ RULE = (
     "additionally addresses events to the ORIGINAL mapping after mappings were derived from it (it is a live layer "
     "of them) and lets the owner of a supplied dict write to it.  structured-map-raise: callbacks (3 signatures) that "
     "raise a TypeError subclass / ValueError at each leaf in turn.  formula-slice-assign: f[i:j] = [terms] for 6 "
-    "slices x every replacement list.  OrderedSet: every ordered pair of item sequences.  Non-trivial = the case has at least one leaf / one layer / "
+    "slices x every replacement list.  Wave 5: the formula histories contain copy.copy / copy.deepcopy events (the "
+    "history continues on the copy, every copied original must stay unchanged and ordered); layered-stacks / "
+    "layered-kinds* also run with None as a stored value (one rotating key per layer) and a `m[k] = None` event; "
+    "structured-merge re-uses objects across operands (_merge(a, a), _merge(a, a._update(b=..)), equal interned "
+    "leaves) with the non-idempotent mergers.  OrderedSet: every ordered pair of item sequences.  Non-trivial = the case has at least one leaf / one layer / "
     "one mutation / one item (counted once per execution)."
 )
 ASSUMPTIONS = [
